@@ -38,6 +38,26 @@ if rnd >= 4:
              "default arguments and optional parameters of built-ins (arity -1 functions, min/max argument counts), and the interplay of "
              "two built-ins that are each correct alone. Each of the three changes must be in a different source file or in clearly "
              "unrelated functions, and each demo must fail deterministically.\n")
+if rnd >= 5:
+    extra = ("\nThis is a fifth round; four earlier rounds produced about a dozen changes for this property already. Shapes that were "
+             "already used for this and the neighbouring properties (do NOT repeat them): producers that capture the stack of their creation; "
+             "in-place mutation through a missing copy; caches without invalidation; dropped or moved recover / nil / type guards; errors "
+             "lost by shadowing or ignored results; stop flags and scratch state shared between iterations or evaluations; off-by-one and "
+             "aliasing slips in operator registration; purity flags computed with the wrong connective; fast paths that forget one case; "
+             "optimizer rules that fold what the run time treats differently; arithmetic and conversion edge cases at int/float borders; "
+             "sort stability; rune vs byte indices; default arguments of variadic built-ins.\n"
+             "What is wanted now are changes that need something SPECIFIC to manifest and that a property-based test of the main entry "
+             "point with small random programs would NOT hit: (a) TWO COOPERATING SITES - two edits (or one edit plus an existing piece of "
+             "code) that each look fine alone and only break the property together, e.g. a helper whose contract is changed in a way all "
+             "callers but one tolerate; (b) a MULTI-STEP SEQUENCE - the violation shows only on the third use, after a particular earlier "
+             "operation, after a failure, after a representation switch (sizes such as 8/10/16/64/1000 elements, nesting depths, 10+ chained "
+             "operations); (c) an UNUSUAL BUT LEGAL INPUT - a long identifier, a deeply nested construct, a very large or very small number, "
+             "an empty list/map/string in a position where it is rare, a key or name that coincides with a built-in name, the same value used "
+             "in two roles; (d) for properties about goroutines, parallel execution or crashes: a particular interleaving, a fault at a "
+             "particular point (the 2nd worker, the last element, during read-ahead, after the consumer stopped), which your demo forces "
+             "deterministically with channels/barriers/slow host functions rather than by sleeping and hoping. "
+             "Each of the three changes must use a different one of (a)-(d) where the property allows it, and must be in a different function. "
+             "Read the code the anchored mechanisms CALL INTO before choosing; say in `needs` exactly what must coincide.\n")
 t = f"""You are given a scratch git worktree of the Go library hneemann/parser2 at {wt} (a configurable expression language: tokenizer, precedence parser, AST optimizer, closure-compiling evaluator with lists/maps/lazy list operations). Work ONLY inside {wt} (do not read or touch /repo or /verif; do not commit). Go environment for every shell call: `export GOFLAGS=-mod=mod GOPROXY=off` (no network; the module cache has everything; `cd {wt} && go build ./... && go test -vet=off -count=1 ./...` is the existing test suite and passes now).
 
 Here is a semantic property the library is supposed to have:
